@@ -256,6 +256,7 @@ impl<'a> SendLastStateProofProcess<'a> {
                     } else if reorg_count == 0 {
                         new_last_headers
                     } else if sampled_count == 0
+                        && last_n_count != 0
                         && check_continuous_headers(&headers[(reorg_count - 1)..=reorg_count])
                             .is_ok()
                     {
@@ -797,11 +798,25 @@ pub(crate) fn check_if_response_is_matched(
     };
 
     if sampled_count == 0 {
-        if last_n_count > 0 {
+        let last_number = last_header.header().number();
+        if last_n_count == 0 {
+            // All headers are reorg headers (before `start_number`).
+            //
+            // A request always satisfies `start_number < last_number`, so there should be at
+            // least one block in `[start_number, last_number)`; without them, nothing links
+            // the proved headers to the last header.
+            if start_number < last_number {
+                let errmsg = format!(
+                    "there should be all blocks of [{}, {}) since no sampled blocks, \
+                    but got only {} reorg blocks",
+                    start_number, last_number, reorg_count
+                );
+                return Err(StatusCode::MalformedProtocolMessage.with_context(errmsg));
+            }
+        } else {
             // If no sampled headers, the last_n_blocks should be all new blocks.
             let first_last_n_header_number = headers[reorg_count].header().number();
             let last_last_n_header_number = headers[headers.len() - 1].header().number();
-            let last_number = last_header.header().number();
             if first_last_n_header_number != start_number
                 || last_last_n_header_number.checked_add(1) != Some(last_number)
             {
